@@ -124,12 +124,13 @@ fn main() {
         if worlds.len() > 1 {
             worlds_vary.push(i);
         }
-        let first = ARun { outcome: observed[0].clone(), facts: None, iterations: 0 };
+        let first = ARun { outcome: observed[0].clone(), facts: None, iterations: 0, queries: vec![] };
         let base = g_acase(blocks, a, limits, &first);
         // replace the last component by the list of observed outcomes
         let g = match base {
             G::T(mut parts) => {
-                parts.pop();
+                parts.pop(); // queries
+                parts.pop(); // result
                 parts.push(G::L(observed.iter().map(g_outcome).collect()));
                 G::T(parts)
             }
